@@ -131,6 +131,11 @@ func forms(cfg, kind, name string, args []string, all bool) []Job {
 		mk("eval-str2sym", nil, "(eval (cons (str2sym "+quoteZ(name)+") (quote ("+a+"))))", "(e (q (c r:cons (c r:str2sym k) k) "+absCall+"))"),
 		mk("user-macro", []string{"(defmac c08m [& r] ^(" + name + " ~@r))"}, "(c08m "+a+")",
 			"(q (d c08m (s defmac (s syntaxQuote "+absCall+"))) (c r:c08m"+ks(n)+"))"),
+		// code running at macro-expansion time (in the duplicated interpreter the compiler expands macros in)
+		mk("macro-time-eval", []string{"(defmac c08t [] (eval (quote " + call + ")))"}, "(c08t)",
+			"(q (d c08t (s defmac (e "+absCall+"))) (c r:c08t))"),
+		mk("macro-time-call", []string{"(defmac c08u [] (begin " + call + " nil))"}, "(macexpand (c08u))",
+			"(q (d c08u (s defmac (s begin "+absCall+"))) (s macexpand (c r:c08u)))"),
 		mk("begin-nested", nil, "(begin (let [c08x 1] (cond true "+call+" 0)))", "(s begin (s let (s cond "+absCall+")))"),
 	)
 	if kind == "special" || kind == "macro" {
